@@ -109,6 +109,31 @@ def hostile_replies(w, res, r):
             res["violations"].append(["panic-at:read_response_body:%s" % loc.split("/src/")[-1], {"class": cls, "panic": e.info}])
         if ct and "utf-16" in ct or bl == "long-nonascii":
             res["nontrivial"].append("reply:" + cls)
+    # replies whose announced length has nothing to do with what follows (a length is a number the host chooses: 2^63, 2^64-1, overflowing,
+    # terabytes, negative, repeated and contradictory, a chunk size of 2^64-1), body tiny, connection closed afterwards
+    heads = [b"Content-Length: 9223372036854775808", b"Content-Length: 18446744073709551615", b"Content-Length: 18446744073709551616", b"Content-Length: 9223372036854775807",
+             b"Content-Length: 1099511627776", b"Content-Length: 4294967296", b"Content-Length: -1", b"Content-Length: 2\r\nContent-Length: 3", b"Content-Length: 0x10",
+             b"Transfer-Encoding: chunked", b"Content-Length: 140737488355328"]
+    lying = []
+    for h in heads:
+        for ct in (b"application/json; charset=utf-8", b"text/xml; charset=utf-16", None):
+            body = b"FFFFFFFFFFFFFFFF\r\n{}\r\n0\r\n\r\n" if h.startswith(b"Transfer") else b"{}"
+            lying.append(b"HTTP/1.1 200 OK\r\n" + (b"Content-Type: " + ct + b"\r\n" if ct else b"") + h + b"\r\n\r\n" + body)
+    w.handler = lambda n, q: {"raw": lying[state["i"] % len(lying)], "close": True}
+    for i in range(len(lying)):
+        state["i"] = i
+        res["evaluations"] += 1
+        try:
+            s.call("hyper_get", url="http://127.0.0.2:8080/lying%d" % i, timeout=60)
+            res["counts"]["site:read_response_body:lying-length"] = res["counts"].get("site:read_response_body:lying-length", 0) + 1
+        except shimmod.ShimPanic as e:
+            loc = ((e.info.get("last") or {}).get("location") or "?")
+            res["violations"].append(["panic-at:read_response_body:%s" % loc.split("/src/")[-1], {"class": "announced-length-lies", "reply_head": lying[i][:160].decode("latin-1"), "panic": e.info}])
+        except shimmod.ShimDead:
+            res["violations"].append(["process-died-at:read_response_body", {"class": "announced-length-lies", "reply_head": lying[i][:160].decode("latin-1"),
+                                                                             "stderr_tail": open(s.stderr_path, "rb").read()[-400:].decode("latin-1")}])
+            return
+        res["nontrivial"].append("reply-lying-length:%d" % i)
     w.handler = wproxy.World.default_handler
 
 
@@ -170,6 +195,22 @@ def e2e(w, res, r, scratch):
         c.close()
         bump("e2e:long-url")
         after("long-url", str(n), {"url_len": n}, got)
+    # percent signs and escapes at odd places of the path / query (dangling '%', one hex digit, non-hex digits, escapes of escapes, escaped dots
+    # and slashes), attributed and unattributed
+    odd_targets = ["/a%", "/a%2", "/metadata/instance%2", "/x%252", "/x%25%32", "/%", "/%%", "/a%zz", "/a%2e%2", "/a%2e%2e%2", "/%2e%2e%2f", "/a/%2E%2E/%2", "/a?b=%", "/a?b=%2", "/a?%=%25%",
+                   "/a%c3", "/a%c3%28", "/a%ff%fe", "/a%00b", "/a%25252e%25252e/x%2", "/" + "%2e" * 300 + "%2", "/a;b=%2", "/a%2/b%"]
+    for ti, target in enumerate(odd_targets):
+        for attributed in (True, False):
+            c = w.open("other", root, timeout=5) if attributed else w.open(record=False, timeout=5)
+            got = False
+            try:
+                c.send(b"GET " + target.encode() + b" HTTP/1.1\r\nHost: x\r\nx-vf-id: odd-%d\r\n\r\n" % ti); c.read_response(); got = True
+            except Exception:
+                pass
+            c.close()
+            bump("e2e:odd-percent-target")
+            res["nontrivial"].append("e2e-odd-target:%d:%s" % (ti, attributed))
+            after("request-target-with-odd-percent-escapes", "t%d" % ti, {"target": target[:120], "attributed": attributed}, got)
     # the proxy's own /provision endpoint with hostile headers
     for tick, cls in ((b"12\xff34", "tick-non-ascii"), ("ü".encode(), "tick-utf8"), (b"9" * 60, "tick-huge"), (b"-1", "tick-negative"), (b"", "tick-empty"), (b"1e9", "tick-float")):
         for md in (b"True", b"\xfftrue", None):
@@ -392,13 +433,18 @@ def worker(args, scratch):
     wrapper, vgdir = (common.memcheck_wrapper(scratch) if args.get("memcheck") else (None, None))
     w = wproxy.World(scratch, runtime="multi:4" if not vgdir else "multi:2", wrapper=wrapper)
     try:
-        if args["layer"] == "sites":
-            site_fuzz(w, res, r)
-            hostile_replies(w, res, r)
-            if not args.get("memcheck"):
-                log_header_instants(w, res, 3000 if args["tier"] == "quick" else 60000)
-        else:
-            e2e(w, res, r, scratch)
+        try:
+            if args["layer"] == "sites":
+                site_fuzz(w, res, r)
+                hostile_replies(w, res, r)
+                if not args.get("memcheck") and not any(v[0].startswith("process-died") for v in res["violations"]):
+                    log_header_instants(w, res, 3000 if args["tier"] == "quick" else 60000)
+            else:
+                e2e(w, res, r, scratch)
+        except shimmod.ShimDead as e:
+            # the process hosting the agent code is gone (abort, e.g. an allocation failure): worse than a panic
+            if not any(v[0].startswith("process-died") for v in res["violations"]):
+                res["violations"].append(["process-died-during:%s" % args["layer"], {"op": str(e), "stderr_tail": open(w.shim.stderr_path, "rb").read()[-400:].decode("latin-1")}])
         res["samples"].append({"layer": args["layer"], "example": "prefix of length cut-delta followed by 2/3/4-byte characters, cut in {1024, 4096}"})
     finally:
         w.close()
